@@ -269,7 +269,12 @@ def shard(ctx):
              "<b><i><table><u>x<tr><td></i></b>y", "<table><b><tr><td>aaa</td></tr>bbb</table>ccc",
              "<a><svg><table><a>x", "<math><table><mi>x", "<table><tr><th><form><table></form>",
              "<b id=1><b id=1><b id=1><b id=1><table><x>y</table>", "<svg xlink:href=a xml:lang=b><table><g xlink:href=c>",
-             "x<table>y<tr>z<td>w</table>v", "<ul><li><table><li>x</table></ul>"]
+             "x<table>y<tr>z<td>w</table>v", "<ul><li><table><li>x</table></ul>",
+             # an adjusted foreign attribute next to its un-prefixed namesake, both orders, SVG and MathML
+             "<svg xlink:href=a href=b>x", "<svg href=b xlink:href=a>x", "<math xml:lang=a lang=b>x", "<svg lang=b xml:lang=a xml:space=c space=d>",
+             "<svg xmlns:xlink=a xlink=b>", "<svg><a xlink:title=t title=u xlink:href=h href=i>x</a>", "<math><mi xlink:href=a href=b xml:base=c base=d>",
+             "<svg xmlns=a:b xmlns:xlink=c xlink:xlink=d>", "<p>x<body class=k id=i><html lang=l data-a=b>", "<b><p class=x id=y>t</b>u",
+             "<a href=1><div title=t class=c><a href=2>x", "<table><b class=q><tr><td>x</table>y"]
     k = 0
     for s in seeds:
         for frag, cont in ((False, None), (True, "div"), (True, "table"), (True, "b")):
